@@ -186,6 +186,7 @@ pub fn plan(prop: &str, tier: &str) -> Option<Plan> {
             b.add("rc/weak-through-zero", all, &[&[("destructed", 1)], &[("destructed", 0)], &[("destructed", 2), ("pre", 2)], &[("destructed", 2), ("pre", 3)], &[("destructed", 1), ("dropin", 1)]], bq);
             b.add("rc/last-weak-vs-destruct", all, &[&[("pre", 0)], &[("pre", 2)], &[("pre", 3)]], bq);
             b.add("rc/weak-many-shares", all, &[], if quick { 2 } else { 4 });
+            b.add("rc/first-downgrade", if quick { few } else { all }, &[&[("many", 0)], &[("many", 1)]], if quick { 2 } else { 3 });
             {
                 let from = b.units.len();
                 if quick {
@@ -249,6 +250,8 @@ pub fn plan(prop: &str, tier: &str) -> Option<Plan> {
                         }
                         b.add_cases("seq/graphs", e(e0).set("shape", shape).set("age", age), seq::graph_cases(shape), 500);
                         if age == 4 && (!quick || e0 == 0) {
+                            // handles released with Rc::finalize inside a critical section
+                            b.add_cases("seq/graphs", e(e0).set("shape", shape).set("age", age).set("fin", 1), seq::graph_cases(shape), 500);
                             // edges released by AtomicRc::drop instead of pop_edges (none / only slot 0 popped)
                             for pop in [0, 1] {
                                 b.add_cases("seq/graphs", e(e0).set("shape", shape).set("age", age).set("pop", pop), seq::graph_cases(shape), 500);
@@ -582,13 +585,19 @@ pub fn assumptions() -> Vec<String> {
 }
 
 fn write_replay(prop: &str, n: usize, f: &Found) -> String {
-    let _ = std::fs::create_dir_all("/verif/replays");
-    let path = format!("/verif/replays/{}-{}.json", prop, n);
+    let _ = std::fs::create_dir_all(format!("{}/replays", out_dir()));
+    let path = format!("{}/replays/{}-{}.json", out_dir(), prop, n);
     let _ = std::fs::write(
         &path,
         serde_json::to_string_pretty(&runner::replay_json(f)).unwrap(),
     );
     path
+}
+
+/// Where evidence and replay files go: /verif, unless a measuring run (tools/coverage.sh) wants
+/// them out of the way.
+fn out_dir() -> String {
+    std::env::var("VERIF_OUT").unwrap_or_else(|_| "/verif".to_string())
 }
 
 pub fn check(prop: &str, tier: &str, seed: i64) -> i32 {
@@ -702,8 +711,8 @@ pub fn check(prop: &str, tier: &str, seed: i64) -> i32 {
         }
         for v in pr.violations.iter() {
             nviol += 1;
-            let _ = std::fs::create_dir_all("/verif/replays");
-            let path = format!("/verif/replays/{}-{}.json", prop, nviol);
+            let _ = std::fs::create_dir_all(format!("{}/replays", out_dir()));
+            let path = format!("{}/replays/{}-{}.json", out_dir(), prop, nviol);
             let _ = std::fs::write(&path, serde_json::to_string_pretty(&v.replay).unwrap());
             violations.push(format!(
                 "VIOLATION property={} replay={}\n  {}: {}",
@@ -736,9 +745,9 @@ pub fn check(prop: &str, tier: &str, seed: i64) -> i32 {
         "wall_s": wall,
         "violations": nviol,
     });
-    let _ = std::fs::create_dir_all("/verif/evidence");
+    let _ = std::fs::create_dir_all(format!("{}/evidence", out_dir()));
     let _ = std::fs::write(
-        format!("/verif/evidence/{}.json", prop),
+        format!("{}/evidence/{}.json", out_dir(), prop),
         serde_json::to_string_pretty(&evidence).unwrap(),
     );
 
